@@ -131,6 +131,26 @@ func ruleFramingReader(p *Program, r *Result) {
 		if ms != nil {
 			lenVal = stripAllConv(ms.Len)
 		}
+		// one buffer for the whole packet: frame := make([]byte, MaxHeaderLength+length); the body is read into
+		// frame[MaxHeaderLength:] and the header bytes are copied to its start
+		frameForm := false
+		if sl, ok := bbuf.(*ssa.Slice); ok && ms == nil && sl.High == nil {
+			if lo, ok := constInt(sl.Low); ok && lo == maxHdr {
+				if fm, ok := sl.X.(*ssa.MakeSlice); ok {
+					if sum, ok := fm.Len.(*ssa.BinOp); ok && sum.Op == token.ADD {
+						var other ssa.Value
+						if c, ok := constInt(sum.X); ok && c == maxHdr {
+							other = sum.Y
+						} else if c, ok := constInt(sum.Y); ok && c == maxHdr {
+							other = sum.X
+						}
+						if other != nil {
+							ms, lenVal, frameForm = fm, stripAllConv(other), true
+						}
+					}
+				}
+			}
+		}
 		lenOK := false
 		if call, ok := lenVal.(*ssa.Call); ok {
 			if f := call.Common().StaticCallee(); f != nil && f.Name() == "Uint32" && f.Pkg != nil && f.Pkg.Pkg.Path() == "encoding/binary" && strings.Contains(f.String(), "bigEndian") {
@@ -275,6 +295,36 @@ func ruleFramingReader(p *Program, r *Result) {
 						good = true
 					}
 				}
+			}
+			if frameForm && data == ssa.Value(ms) {
+				// the frame is decoded whole; its first MaxHeaderLength bytes are the header bytes, copied in
+				// before the decode, and nothing else writes into it
+				copies, others := 0, 0
+				for _, rf := range refsOf(ms) {
+					switch x := rf.(type) {
+					case *ssa.Call:
+						if bi, ok := x.Common().Value.(*ssa.Builtin); ok && bi.Name() == "copy" && x.Common().Args[0] == ssa.Value(ms) {
+							src := x.Common().Args[1]
+							if (src == hbuf || hbufBase(src) == hbufBase(hbuf)) && domInstr(x, decode) && domInstr(hdrRead, x) {
+								if n, ok := sliceConstLen(src); ok && n == maxHdr {
+									copies++
+									continue
+								}
+							}
+							others++
+						} else if x != decode {
+							others++
+						}
+					case *ssa.Slice:
+						if x != bbuf {
+							others++
+						}
+					case *ssa.DebugRef:
+					default:
+						others++
+					}
+				}
+				good = copies == 1 && others == 0
 			}
 			r.cond(good, "R-FRAMING", key+":decode-input", p.Pos(decode.Pos()),
 				"the packet is decoded from exactly append(headerBytes, bodyBytes...)",
